@@ -179,7 +179,14 @@ func Generate(pl *Plugins, s *Schema, v Variant) *Generated {
 	fileName := s.ID + "_" + name + ".proto"
 	g.FileProto = s.FileDescriptor(fileName, g.ProtoPkg, g.GoImport+";"+name)
 	g.Deps = depFiles(s.Imports)
-	req := &pluginpb.CodeGeneratorRequest{FileToGenerate: []string{fileName}, ProtoFile: append(append([]*descriptorpb.FileDescriptorProto{}, g.Deps...), g.FileProto),
+	toGen := []string{fileName}
+	if s.Dep != nil {
+		// the imported file: package <pkg>.dep, Go package <import>/dep/v1 with the package NAME depv1
+		depFD := s.Dep.FileDescriptor(DepFileName(fileName), g.ProtoPkg+".dep", g.GoImport+"/dep/v1;depv1")
+		g.Deps = append(g.Deps, depFD)
+		toGen = []string{DepFileName(fileName), fileName}
+	}
+	req := &pluginpb.CodeGeneratorRequest{FileToGenerate: toGen, ProtoFile: append(append([]*descriptorpb.FileDescriptorProto{}, g.Deps...), g.FileProto),
 		CompilerVersion: &pluginpb.Version{Major: proto.Int32(3), Minor: proto.Int32(21), Patch: proto.Int32(0)}}
 	var bin string
 	switch v.Runtime {
@@ -203,6 +210,7 @@ func Generate(pl *Plugins, s *Schema, v Variant) *Generated {
 		g.Files[f.GetName()] = f.GetContent()
 	}
 	if v.FM {
+		req.FileToGenerate = []string{fileName} // the imported file is somebody else's: not generated
 		req.Parameter = proto.String(v.FMParam())
 		resp, err := RunPlugin(pl.FastMarshal, req)
 		if err != nil {
@@ -263,7 +271,12 @@ func WriteModule(root string, gs []*Generated, mainSrc string, harnessDir string
 			return err
 		}
 		for n, c := range g.Files {
-			if err := os.WriteFile(filepath.Join(dir, filepath.Base(n)), []byte(c), 0o644); err != nil {
+			dst := filepath.Join(dir, filepath.Base(n))
+			if strings.HasPrefix(n, "dep/") { // the imported file's package lives in its own directory
+				dst = filepath.Join(dir, n)
+				os.MkdirAll(filepath.Dir(dst), 0o755)
+			}
+			if err := os.WriteFile(dst, []byte(c), 0o644); err != nil {
 				return err
 			}
 		}
